@@ -29,6 +29,8 @@ def main():
 
 UNITS = [("registry", tables.registry, "GemVerif/Gen/Registry.lean")]
 UNITS.append(("datagen", __import__("translator.datagen", fromlist=["datagen"]).datagen, "GemVerif/Gen/DataGen.lean"))  # C20
+UNITS.append(("frames", __import__("translator.frames", fromlist=["frames"]).frames, "GemVerif/Gen/Frames.lean"))  # C12
+UNITS.append(("forwarding", __import__("translator.forwarding", fromlist=["forwarding"]).forwarding, "GemVerif/Gen/Forwarding.lean"))  # C11
 
 if __name__ == "__main__":
     main()
